@@ -7,6 +7,7 @@ func vUFBool(name string, parts ...[]byte) bool           { panic("symbolic only
 func vFresh(name string, n int) []byte                    { panic("symbolic only") }
 func vFreshBool(name string) bool                         { panic("symbolic only") }
 func vBytesEq(a, b []byte) bool                           { panic("symbolic only") }
+func vStructField(v interface{}, i int) interface{}       { panic("symbolic only") }
 func vAssume(c bool)                                      { panic("symbolic only") }
 
 func clone(b []byte) []byte {
